@@ -105,7 +105,10 @@ func report(o *options, p *Program, units []*UnitResult, loadSecs, genSecs, solv
 		}
 		if u.Err != "" {
 			undecided = append(undecided, fmt.Sprintf("%s: %s", u.Name, u.Err))
-			continue
+			if u.VC == nil {
+				continue
+			}
+			// obligations generated before the unit was abandoned still count
 		}
 		if u.Kind == "func" {
 			funcsUnder = append(funcsUnder, u.Name)
@@ -265,16 +268,16 @@ func registrable(kind string) bool {
 func writeReplay(o *options, p *Program, u *UnitResult, ob *Obligation, path string) string {
 	suffix := " no-failing-input-found"
 	rep := map[string]any{
-		"property":   o.prop,
-		"obligation": ob.Name,
-		"kind":       ob.Kind,
-		"unit":       u.Name,
-		"position":   ob.Pos,
-		"result":     ob.Result,
-		"solver":     ob.Solver,
-		"goal":       ob.Goal,
+		"property":      o.prop,
+		"obligation":    ob.Name,
+		"kind":          ob.Kind,
+		"unit":          u.Name,
+		"position":      ob.Pos,
+		"result":        ob.Result,
+		"solver":        ob.Solver,
+		"goal":          ob.Goal,
 		"solver_output": firstLines(ob.Model, 200),
-		"smt":        u.VC.render(ob, true),
+		"smt":           u.VC.render(ob, true),
 	}
 	if ob.Result == "sat" {
 		if rr := tryReplay(o, p, u, ob); rr != nil {
@@ -310,10 +313,10 @@ func writeEvidence(o *options, p *Program, all []oblOut, obligations, discharged
 		trustedBase = append(trustedBase, "trusted contract (body not verified): "+t)
 	}
 	cov := map[string]any{
-		"obligations":  obligations,
-		"discharged":   discharged,
-		"checker_cmd":  fmt.Sprintf("/verif/bin/govc -prop %s -tier %s", o.prop, o.tier),
-		"trusted_base": trustedBase,
+		"obligations":              obligations,
+		"discharged":               discharged,
+		"checker_cmd":              fmt.Sprintf("/verif/bin/govc -prop %s -tier %s", o.prop, o.tier),
+		"trusted_base":             trustedBase,
 		"functions_under_contract": funcs,
 		"pure_functions_verified":  pure,
 		"pure_functions_inlined":   pureUsed,
